@@ -32,3 +32,7 @@ Definition Qlt_b (a b : Q) : bool := negb (Qle_bool b a).
 Definition au_dom (ci cj bi bj : vec) : bool := forallb (fun b => Qlt_b b (au_small_m ci cj)) (vadd bi bj).
 Definition au_cov (eps : Q) (ci cj bi bj : vec) : bool := forallb (fun b => Qlt_b (au_big_m eps ci cj) b) (vadd bi bj).
 Definition au_hold (eps : Q) (ci cp bi bp : vec) : bool := forallb (fun b => Qle_bool (au_big_m eps ci cp) b) (vadd bp bi).
+
+(* environment of the regenerated Auer transitions (coq/gen/Gen_auer.v): centre and width row of each
+   design as displayed this round, and the accuracy eps *)
+Record aenv := mkaenv { a_center : nat -> vec; a_beta : nat -> vec; a_eps : Q }.
